@@ -31,6 +31,8 @@ Hypothesis HMap : forall len kvs, Forall (fun kv => P (snd kv)) kvs -> P (SMap l
 Hypothesis HStruct : forall n len fs, Forall (fun kv => P (snd kv)) fs -> P (SStruct n len fs).
 Hypothesis HStructVariant : forall n i var len fs, Forall (fun kv => P (snd kv)) fs ->
                                                    P (SStructVariant n i var len fs).
+Hypothesis HCollectStr : forall frags, P (SCollectStr frags).
+Hypothesis HHumanReadable : forall hr compact, P hr -> P compact -> P (SHumanReadable hr compact).
 
 Fixpoint sval_ind' (v : sval) : P v :=
   let fix all (es : list sval) : Forall P es :=
@@ -67,6 +69,8 @@ Fixpoint sval_ind' (v : sval) : P v :=
   | SMap len kvs => HMap len kvs (allm kvs)
   | SStruct n len fs => HStruct n len fs (allf fs)
   | SStructVariant n i var len fs => HStructVariant n i var len fs (allf fs)
+  | SCollectStr frags => HCollectStr frags
+  | SHumanReadable a b => HHumanReadable a b (sval_ind' a) (sval_ind' b)
   end.
 End SvalInd.
 
@@ -127,6 +131,8 @@ Fixpoint t_key (k : sval) : T :=
   | SNewtypeStruct _ x => t_key x
   | SInt _ z => temit [34] +> temit (fmt_int z) +> temit [34]
   | SChar c => t_str (utf8_encode c)
+  | SCollectStr frags => t_str (concat frags)
+  | SHumanReadable hr compact => if human_readable then t_key hr else t_key compact
   | _ => tfail KeyMustBeAString
   end.
 
@@ -173,6 +179,8 @@ Fixpoint trace (v : sval) : T :=
   | SStruct _ len fs => t_open 123 125 (Some len) (t_loop (t_struct_field trace) t_map_end fs)
   | SStructVariant _ _ variant len fs =>
       t_variant_header variant +> t_open 123 125 (Some len) (t_loop (t_struct_field trace) t_struct_variant_end fs)
+  | SCollectStr frags => t_str (concat frags)
+  | SHumanReadable hr compact => if human_readable then trace hr else trace compact
   end.
 
 (* ------------------------------------------------------------------ model = writer fed with the trace *)
@@ -300,6 +308,7 @@ Proof.
   induction k; cbn [zkey t_key]; try apply spec_err; try (apply spec_str).
   - apply spec_bind; [apply spec_write|]. apply spec_bind; apply spec_write.
   - exact IHk.
+  - exact IHk1.
 Qed.
 
 Lemma spec_loop : forall A (item : A -> cstate -> writer -> res writer) fin titem tfin l,
@@ -427,6 +436,8 @@ Proof.
   - apply spec_bind; [apply spec_variant_header|].
     apply spec_serialize_map. intros st. apply spec_loop; [|apply spec_struct_variant_end].
     eapply Forall_impl; [|exact H]. intros e He st'. apply spec_struct_field. exact He.
+  - apply spec_str.
+  - exact IHv1.
 Qed.
 
 End Spec.
@@ -528,6 +539,9 @@ Proof.
   - eexists. split; [apply t_str_ref|reflexivity].
   - apply IHk. exact Hk.
   - apply IHk. exact Hk.
+  - eexists. split; [apply t_str_ref|reflexivity].
+  - apply IHk1. exact Hk.
+  - apply IHk1. exact Hk.
 Qed.
 
 Lemma t_loop_char : forall A (titem : A -> cstate -> T) tfin (ok : A -> bool)
@@ -715,6 +729,8 @@ Proof.
       rewrite <- tagged_ok, <- (bracket_ok 123 125). unfold ref_object.
       destruct (hint0 (Some len)); rewrite <- !app_assoc; reflexivity.
     + intros Hk. rewrite t_variant_header_ref. apply tseq_emit_err. apply Hf. exact Hk.
+  - (* collect_str *) split; [intros _; eexists; split; [apply t_str_ref|reflexivity]|discriminate].
+  - (* is_human_readable *) exact IHv1.
 Qed.
 
 (* ================================================================== the theorems *)
@@ -869,6 +885,8 @@ Proof.
   - apply IHk; assumption.
   - apply Qstr. exact HA.
   - apply IHk; assumption.
+  - apply Qstr. exact HA.
+  - exact (IHk1 bs' HA H).
 Qed.
 
 Definition closed_of (v : sval) : Prop :=
@@ -950,6 +968,8 @@ Proof.
   - destruct (sequence _) as [items|] eqn:Hs; [|discriminate]. injection Hr as <-.
     destruct HA as [Hv HAx]. apply Q_tagged; [exact Hv|].
     unfold ref_object. apply Q_bracketed; try lia. eapply Q_fields; eassumption.
+  - apply Qstr; exact HA.
+  - exact (IHv1 bs' HA Hr).
 Qed.
 End Closed.
 
@@ -1068,6 +1088,8 @@ Proof.
   - apply jstring_ref_string.
   - apply jstring_ref_string.
   - apply IHk; assumption.
+  - apply jstring_ref_string.
+  - exact (IHk1 bs' Hk H).
 Qed.
 
 Lemma bracketed_plain : forall (opn cls : byte) (early : bool) items,
@@ -1216,6 +1238,8 @@ Proof.
     pose proof (hint_ok_plain _ _ _ _ _ _ Hh Hs) as Hp.
     destruct (json_fields fs items H Hk Hh' Hf Hs) as (members & -> & Hm).
     apply jvalue_tagged. apply jvalue_object; assumption.
+  - apply jv_str, jstring_ref_string.
+  - exact (IHv1 bs' Hk Hh Hf Hr).
 Qed.
 
 (* a successful output is a JSON text (RFC 8259), provided the value's length hints are truthful
